@@ -211,10 +211,35 @@ std::string run_case(Src& s, CaseInfo& ci)
   }
   case 6:
   {  // regexp limits: repeat interval, number of splits, code size
-    int sub = (int) s.range(0, 3);
+    int sub = (int) s.range(0, 4);
     std::string re;
     bool ok = true;
     int code = 9;
+    if (sub == 4)
+    {
+      // code-size limit: jump offsets inside a regexp are 16 bits, so a piece of more than ~32 KiB of
+      // code inside an alternation / repetition must be refused ("regular expression is too large").
+      // One character class is 33-34 bytes of code; n classes straddle the limit in every position
+      // that emits a jump over them.  Whatever is accepted must still scan correctly.
+      int n = (int) s.range(930, 1010);
+      std::string big;
+      for (int i = 0; i < n; i++) big += "[ab]";
+      static const char* SHAPES[] = {"x|%s", "%s|x", "y(%s)*x", "y(x|%s)", "(%s)?x", "y(%s|x)z", "(x|y|%s)"};
+      int shape = (int) s.range(0, 6);
+      re = strf(SHAPES[shape], big.c_str());
+      ci.desc = strf("regexp shape /%s/ with %d character classes in the placeholder", SHAPES[shape], n);
+      checkpoint(s, ci.desc);
+      // every shape matches the text "yxz" somewhere through its short alternative
+      Outcome o = compile_scan("rule r { strings: $a = /" + re + "/ condition: $a }", "..yxz..", 0, 0, {}, true);
+      if (o.nerr)
+        failure = o.first_error == 45 || o.first_error == 49 ? "" : ci.desc + strf(": rejected with %d instead of `too large`: ", o.first_error) + o.diag;
+      else if (o.rc_scan != 0)
+        failure = ci.desc + strf(": accepted, but the scan returns %d", o.rc_scan);
+      else if (o.trace.find("M default:r") == std::string::npos)
+        failure = ci.desc + ": accepted, but the compiled regexp no longer matches its short alternative in \"..yxz..\"";
+      at_boundary = true;
+      break;
+    }
     if (sub == 0)
     {
       static const int R[] = {32766, 32767, 32768, 40000, 100000};
